@@ -41,8 +41,8 @@ import (
 func init() {
 	gens["C18"] = genC18
 	gens["C18sweep"] = genC18Sweep
-	observers["C18.trace"] = obsC18
-	observers["C18.fault"] = obsC18
+	observers["C18.trace"] = retryHang(obsC18, "exit=HANG")
+	observers["C18.fault"] = retryHang(obsC18, "exit=HANG")
 }
 
 // a journal file in a random, unformatted layout; `broken` makes it unparseable
